@@ -577,7 +577,7 @@ func (c *caseCtx) judgeSteps(s *stats, checkerName, via, desc, opString string, 
 				}
 				s.count("learner_removed_first_"+checkerName+"_"+desc+"_"+w.Mode+"_"+hl, 1)
 				s.report(&finding{Key: "operator-builder:learner-replaced-by-voter-is-removed-before-the-add", Size: size,
-					What: fmt.Sprintf("%s (%s, %s) proposed %q for region [%s]: step %d removes the learner on store %d before step %d adds its replacement (a voter) on store %d", checkerName, via, w.Mode, desc, c.k.Region, removes[0].idx, removes[0].store, adds[0].idx, adds[0].store),
+					What:    fmt.Sprintf("%s (%s, %s) proposed %q for region [%s]: step %d removes the learner on store %d before step %d adds its replacement (a voter) on store %d", checkerName, via, w.Mode, desc, c.k.Region, removes[0].idx, removes[0].store, adds[0].idx, adds[0].store),
 					Witness: map[string]interface{}{"case": c.k, "checker": checkerName, "via": via, "origin": c.origin.Describe(), "operator": opString, "desc": desc, "steps": stepStrings, "trace": append([]string(nil), trace...)}})
 			} else {
 				report("replacement-removes-before-it-adds", fmt.Sprintf("step %d removes the peer on store %d before step %d adds its replacement on store %d", removes[0].idx, removes[0].store, adds[0].idx, adds[0].store), nil)
